@@ -13,13 +13,15 @@ struct Send { int dst = 0, flags = 0, src_own = 0; };
 struct Sender { int in_pool = 0, pool_idx = 0; std::vector<Send> sends; };
 struct Fault { int fn = 0, k = 0, err = 0; };
 struct MsgCase {
-  int nthreads = 1, skip_first = 0, stall_dst = 255, burst = 0, burst_flags = 0, late_burst = 0, late_dst = 0, race_n = 0, race_dst = 0, race_flags = 0, pool_flags = 0, late_self = 0;
+  int nthreads = 1, skip_first = 0, stall_dst = 255, burst = 0, burst_flags = 0, late_burst = 0, late_dst = 0, race_n = 0, race_dst = 0, race_flags = 0, pool_flags = 0, late_self = 0, selfarg = 0;
+  std::vector<int> aops;  // triples alloc_on, dst, free_on (255 = outside / NULL)
   std::vector<Sender> senders;
   Bytes plan;
   std::vector<Fault> faults;
   std::string ser() const {
     Writer w;
-    w.i("nthreads", nthreads).i("skip_first", skip_first).i("stall_dst", stall_dst).i("burst", burst).i("burst_flags", burst_flags).i("late_burst", late_burst).i("late_dst", late_dst).i("race_n", race_n).i("race_dst", race_dst).i("race_flags", race_flags).i("pool_flags", pool_flags).i("late_self", late_self);
+    w.i("nthreads", nthreads).i("skip_first", skip_first).i("stall_dst", stall_dst).i("burst", burst).i("burst_flags", burst_flags).i("late_burst", late_burst).i("late_dst", late_dst).i("race_n", race_n).i("race_dst", race_dst).i("race_flags", race_flags).i("pool_flags", pool_flags).i("late_self", late_self).i("selfarg", selfarg);
+    { std::vector<long long> a(aops.begin(), aops.end()); w.iv("aops", a); }
     w.i("nsenders", (long long)senders.size());
     for (size_t i = 0; i < senders.size(); i++) {
       std::vector<long long> v{senders[i].in_pool, senders[i].pool_idx};
@@ -38,7 +40,8 @@ struct MsgCase {
     c.nthreads = (int)r.i("nthreads", 1); c.skip_first = (int)r.i("skip_first"); c.stall_dst = (int)r.i("stall_dst", 255);
     c.burst = (int)r.i("burst"); c.burst_flags = (int)r.i("burst_flags"); c.late_burst = (int)r.i("late_burst"); c.late_dst = (int)r.i("late_dst");
     c.race_n = (int)r.i("race_n"); c.race_dst = (int)r.i("race_dst"); c.race_flags = (int)r.i("race_flags");
-    c.pool_flags = (int)r.i("pool_flags"); c.late_self = (int)r.i("late_self");
+    c.pool_flags = (int)r.i("pool_flags"); c.late_self = (int)r.i("late_self"); c.selfarg = (int)r.i("selfarg");
+    for (long long v : r.iv("aops")) c.aops.push_back((int)v);
     int n = (int)r.i("nsenders");
     for (int i = 0; i < n; i++) {
       auto v = r.iv(("s" + std::to_string(i)).c_str());
@@ -201,6 +204,25 @@ static Verdict evaluate(const MsgCase &c, const c05_out &o, bool &hang) {
       last_cb[key] = x.cbs[0];
     }
   }
+  // async-operation helpers: result callback exactly once, on the destination fixed at allocation, with the stored arguments
+  for (uint32_t b = 0; b < o.naop_done; b++) {
+    int alloc_on = c.aops[3 * b], dst = c.aops[3 * b + 1], free_on = c.aops[3 * b + 2];
+    int want_thr = (dst == 255 ? alloc_on : dst) % c.nthreads;
+    uint64_t want = o.tpt_ptr[want_thr];
+    int runs = 0;
+    for (uint32_t i = 0; i < n; i++) {
+      const tp_rec &r = tp_log_buf[i];
+      if (r.kind != R_EV_CB || r.a != b) continue;
+      runs++;
+      PBT_REQUIRE(r.c == 0xa0b0u + b, "async operation " << b << ": result callback received argument " << std::hex << r.c);
+      PBT_REQUIRE(r.b == want && r.cur == want, "async operation " << b << " (allocated on " << (alloc_on == 255 ? std::string("an outside thread") : "thread " + std::to_string(alloc_on % c.nthreads))
+                                                  << ", destination " << (dst == 255 ? std::string("NULL = the allocating thread") : "thread " + std::to_string(dst % c.nthreads)) << ", completed on "
+                                                  << (free_on == 255 ? std::string("an outside thread") : "thread " + std::to_string(free_on % c.nthreads)) << "): result callback ran on tpt " << std::hex << r.cur
+                                                  << " with tpt argument " << r.b << ", destination is " << want);
+    }
+    PBT_REQUIRE(runs == 1, "async operation " << b << ": result callback ran " << runs << " time(s)");
+    label("async_op");
+  }
   // classification
   bool overlap = false;
   {
@@ -225,7 +247,7 @@ static Verdict evaluate(const MsgCase &c, const c05_out &o, bool &hang) {
   if (o.nrace) label("sends_racing_with_shutdown");
   if (c.pool_flags & 2) label("pool_with_CLOEXEC");
   for (int p : {1, 2, 3}) if (o.res.vp_hits[p]) label("vp" + std::to_string(p) + "_hit");
-  if (overlap || inj || failed || direct_taken || (pvt_sends && c.nthreads >= 2) || o.nlate || o.nrace) nontrivial_cur();
+  if (overlap || inj || failed || direct_taken || (pvt_sends && c.nthreads >= 2) || o.nlate || o.nrace || o.naop_done) nontrivial_cur();
   return Verdict::pass();
 }
 
@@ -238,7 +260,10 @@ static Verdict run_case(const MsgCase &c) {
   scn->burst = (uint16_t)std::min(4000, c.burst);
   scn->burst_flags = (uint8_t)c.burst_flags;
   scn->late_burst = (uint16_t)std::min(1990, std::max(0, c.late_burst)); scn->late_dst = (uint8_t)c.late_dst;
-  scn->race_n = (uint8_t)std::min(200, std::max(0, c.race_n)); scn->race_dst = (uint8_t)c.race_dst; scn->pool_flags = (uint8_t)c.pool_flags; scn->late_self = (uint8_t)(c.late_self && c.late_burst > 0);
+  scn->race_n = (uint8_t)std::min(200, std::max(0, c.race_n)); scn->race_dst = (uint8_t)c.race_dst; scn->selfarg = (uint8_t)c.selfarg;
+  scn->naops = (uint8_t)std::min<size_t>(8, c.aops.size() / 3);
+  for (int i = 0; i < scn->naops; i++) { scn->aop[i].alloc_on = (uint8_t)c.aops[3 * i]; scn->aop[i].dst = (uint8_t)c.aops[3 * i + 1]; scn->aop[i].free_on = (uint8_t)c.aops[3 * i + 2]; }
+  scn->pool_flags = (uint8_t)c.pool_flags; scn->late_self = (uint8_t)(c.late_self && c.late_burst > 0);
   scn->race_flags = (uint8_t)c.race_flags;  // bits 0-2 message flags, bit 3: hold one send at the state-test/write gap
   scn->nsenders = (uint8_t)std::min<size_t>(c.senders.size(), C05_MAX_SENDERS);
   for (int i = 0; i < scn->nsenders; i++) {
@@ -310,6 +335,19 @@ static rc::Gen<MsgCase> genCase() {
       if (c.race_dst < c.nthreads && !(c.skip_first && c.race_dst == 0)) { c.race_n = *range<int>(12, 60); c.race_flags = *rc::gen::element(0, 0, 2, 4, 6) | (*range<int>(0, 2) == 0 ? 8 : 0); }
     }
     c.pool_flags = *rc::gen::weightedElement<int>({{3, 0}, {1, 1}, {2, 2}, {1, 3}});  // pool settings: BIND2CPU, CLOEXEC
+    c.selfarg = *rc::gen::weightedElement<int>({{2, 0}, {1, 1}});  // first send of sender 0 passes the callback's own address as its argument
+    if (*range<int>(0, 3) == 0) {
+      // async operations between started threads (and the outside)
+      std::vector<int> st;
+      for (int t = 0; t < c.nthreads; t++) if (!(c.skip_first && t == 0)) st.push_back(t);
+      int na = st.empty() ? 0 : *range<int>(1, 4);
+      for (int i = 0; i < na; i++) {
+        int alloc_on = *rc::gen::weightedElement<int>({{3, *rc::gen::elementOf(st)}, {1, 255}});
+        int dst = (alloc_on == 255) ? *rc::gen::elementOf(st) : *rc::gen::weightedElement<int>({{1, *rc::gen::elementOf(st)}, {1, 255}});
+        int free_on = *rc::gen::weightedElement<int>({{3, *rc::gen::elementOf(st)}, {1, 255}});
+        c.aops.push_back(alloc_on); c.aops.push_back(dst); c.aops.push_back(free_on);
+      }
+    }
     c.plan = *bytes_upto(24);
     int nf = *rc::gen::weightedElement<int>({{3, 0}, {3, 1}, {2, 2}, {1, 4}});
     size_t total = 0;
